@@ -526,6 +526,10 @@ fn run_harness(h: &str, preset: &str, seed: u64) -> Result<Fields, String> {
                 (2800, 2, "RPOP l"),
                 (2900, 1, "LLEN l"),
                 (3000, 0, "ZSCORE z two"),
+                // scripts that draw random numbers: the simulation seeds Lua's generator from its own clock
+                (3100, 1, "EVAL return\\x20math.random(1000000) 0"),
+                (3200, 2, "EVAL redis.call('SET','r',math.random(1000000))\\x20return\\x20redis.call('GET','r') 0"),
+                (3300, 0, "GET r"),
             ];
             for (t, c, s) in script {
                 b = b.at_time(*t).client(*c, cmd(s));
